@@ -73,6 +73,10 @@ CLAIMED = {
    "For every base geometry of a family (structural shapes x coordinate types x finite float classes from subnormal to 1e300) every mutant that differs in exactly one respect is generated (each ordinate one ulp up and down, adjacent members swapped, a member removed / duplicated / emptied, each line reversed, each closed line rotated by each offset, coordinate type changed, Point wrapped into a MultiPoint / collection) and ExactEquals is compared in both argument orders with (a) equality of an independent WKB encoding with -0 = +0 for the no-option form and (b) equality of an independent canonical form (members sorted, lines oriented, rings rotated) for IgnoreOrder; tolerance variants are checked for symmetry, monotonicity and the zero case; every permutation of up to 5 (thorough 6) members incl. duplicates equal up to rotation, chains under IgnoreOrder+ToleranceXY, and reflexive / symmetric / transitive laws on all triples of a 60-element family.",
    "Trust: refcodec WKB writer and the canonical form in checks/c18.go.",
    "bounded-exhaustive enumeration of geometries x one-respect mutants x permutations on the real code against independent identity oracles", "4/C18"),
+ "C19": ("model_checking",
+   "All 9 projections x a lattice of configurations (centres / origins every 30 degrees incl. poles and +-180, standard parallel pairs over {+-10,+-30,+-60}^2 in both orders minus the singular ones, radii 1 and WGS84 mean, zoom 0..30) x every point of a graticule (5 degrees quick, 2 degrees thorough, 1 degree for every 97th configuration) and of the same graticule shifted by 0.37 degrees - enumeration replaces the quantifier's random points - clipped to each implementation's one-to-one domain, plus the centre / origin itself and points on the standard parallels: Forward finite, Reverse(Forward(p)) within 1e-9 degrees (NaN fails), and the documented local character by central differences: |det J| = R^2 cos(lat) for the equal-area ones, orthogonal equal-length scaled partials for the conformal ones, distance from the centre for the azimuthal equidistant, unit meridian scale for the equidistant conic, true scale on standard parallels, Web Mercator world square and southward y.",
+   "The continuum of configurations and points is covered on lattices only; nothing is claimed between nodes. Jacobians by central differences with h = 1e-4 degrees, tolerance 1e-6 relative.",
+   "exhaustive enumeration of a configuration x graticule lattice on the real code against closed-form characterisations", "4/C19"),
 }
 
 PENDING = {}
